@@ -217,6 +217,14 @@ theorem rloopWith_plain (run : St → Res) (hp : Plain run) (re : Option (St →
   | nil => simp [rloopFold]; cases re <;> rfl
   | cons it rest => simp
 
+/-- A range loop over a variable that is not set has no iteration either: exactly the else branch runs
+    (the repaired defect: it used to render nothing). -/
+theorem rloop_unset_var_else (run : St → Res) (re : St → Res) (ls : RLoopSpec) (s : St)
+    (name : Bytes) (sub : List Bytes) (hsrc : splitDots ls.src = name :: sub) (hvar : getVar s.c.vars name = none) :
+    rloopWith run (some re) ls s = re s := by
+  unfold rloopWith
+  simp only [hsrc, hvar]
+
 /-! Non-vacuity. -/
 example : counterVals .lt .inc 10 2 5 = [2, 3, 4] := by decide
 example : counterVals .gtq .dec 10 3 1 = [3, 2, 1] := by decide
